@@ -117,11 +117,31 @@ Proof.
   destruct (String.eqb (r_ctype r2) ct); [|apply IH]. destruct best; apply IH.
 Qed.
 
-Lemma all_same_dur_sim ct loopMS l l' : reps_sim l l' -> all_same_dur ct loopMS l = all_same_dur ct loopMS l'.
+Fixpoint contig_b_seg (l : list seg) : bool :=
+  match l with
+  | a :: ((b :: _) as t) => (st b =? en a) && contig_b_seg t
+  | _ => true
+  end.
+
+Lemma table_contig_b_seg l : table_contig_b l = contig_b_seg (map tseg l).
 Proof.
-  induction 1 as [|[k1 r1] [k2 r2] l l' [Hk Hr] _ IH]; cbn [all_same_dur]; [reflexivity|].
-  cbn [fst snd] in *. destruct (rep_sim_fields _ _ Hr) as (_ & -> & _ & _ & -> & _).
-  rewrite (rep_sim_dur_ms _ _ Hr), IH. reflexivity.
+  induction l as [|a l IH]; [reflexivity|]. destruct l as [|b l2]; [reflexivity|].
+  change (table_contig_b (a :: b :: l2)) with ((c_st b =? c_en a) && table_contig_b (b :: l2)).
+  rewrite IH. reflexivity.
+Qed.
+
+Lemma table_contig_b_map l l' : map tseg l = map tseg l' -> table_contig_b l = table_contig_b l'.
+Proof. intros H. now rewrite !table_contig_b_seg, H. Qed.
+
+Lemma check_reps_sim ref ref' loopMS l l' : rep_sim ref ref' -> reps_sim l l' ->
+  check_reps ref loopMS l = check_reps ref' loopMS l'.
+Proof.
+  intros Href. induction 1 as [|[k1 r1] [k2 r2] l l' [Hk Hr] _ IH]; cbn [check_reps]; [reflexivity|].
+  cbn [fst snd] in *.
+  destruct (rep_sim_fields _ _ Hr) as (_ & Hc & Ht & _ & Hp & Hs).
+  destruct (rep_sim_fields _ _ Href) as (_ & Hc' & Ht' & _ & _ & _).
+  rewrite (table_contig_b_map _ _ Hs), (rep_sim_dur_ms _ _ Hr), IH,
+          (rep_sim_rduration _ _ Hr), (rep_sim_rduration _ _ Href), Hc, Hc', Ht, Ht', Hp. reflexivity.
 Qed.
 
 Definition opt_rel {A A'} (R : A -> A' -> Prop) (x : option A) (y : option A') : Prop :=
@@ -136,9 +156,9 @@ Proof.
   pose proof (lookup_reps_sim k _ _ Hr) as Hlk.
   destruct (lookup k (a_reps a)) as [r|], (lookup k (a_reps a')) as [r'|]; try contradiction; [|reflexivity].
   rewrite (rep_sim_dur_ms _ _ Hlk). destruct (dur_ms r') as [loopMS| |]; cbn [bind res_rel]; auto.
-  rewrite (rep_sim_rduration _ _ Hlk). destruct (rep_sim_fields _ _ Hlk) as (_ & -> & -> & _).
+  rewrite (rep_sim_rduration _ _ Hlk). destruct (rep_sim_fields _ _ Hlk) as (_ & _ & Ht & _). rewrite Ht.
   destruct (negb _); [exact I|].
-  rewrite (all_same_dur_sim _ _ _ _ Hr). destruct (all_same_dur (r_ctype r') loopMS (a_reps a')) as [b| |]; cbn [bind res_rel]; auto.
+  rewrite (check_reps_sim _ _ loopMS _ _ Hlk Hr). destruct (check_reps r' loopMS (a_reps a')) as [[b|]| |]; cbn [bind res_rel]; auto; [|exact I].
   destruct b; [|exact I]. cbn. repeat split; auto.
 Qed.
 
@@ -237,17 +257,22 @@ Section Sim.
       rewrite <- E2, <- E3. apply (with_init_same (stored_fields r)).
   Qed.
 
-  (** A cache entry is good for a representation: no file, or the file write mode produces for it. *)
+  (** A cache entry is good for a representation: no file, an unreadable or undecodable file (it is
+      logged and the segments are scanned), or the file write mode produces for it. *)
   Definition good_entry (m : mpd_rep) (c : cobs B) : Prop :=
-    c = CAbsent \/ exists r, scan_rep m = Ok r /\ c = CBytes (enc (to_stored r)).
+    c = CAbsent \/ c = CBroken \/ (exists b, c = CBytes b /\ dec b = None) \/
+    exists r, scan_rep m = Ok r /\ c = CBytes (enc (to_stored r)).
 
   Lemma load_rep_read m c :
     good_entry m c -> init_ts_ok m ->
     res_rel rep_sim (fst (load_rep mode_read c m)) (scan_rep m) /\ snd (load_rep mode_read c m) = None.
   Proof.
-    intros [->|[r [Hs ->]]] Hts; unfold Cache.load_rep; cbn [use_cache do_write mode_read fst snd].
+    intros [->|[->|[[b [-> Hb]]|[r [Hs ->]]]]] Hts; unfold Cache.load_rep; cbn [use_cache do_write mode_read fst snd].
     - split; [|destruct (scan_rep m); reflexivity]. destruct (scan_rep m); cbn; auto. apply rep_sim_refl.
-    - split; [|reflexivity]. rewrite (load_json_of_scan _ _ Hs Hts), Hs. cbn. apply rep_sim_stored_fields.
+    - split; [|destruct (scan_rep m); reflexivity]. destruct (scan_rep m); cbn; auto. apply rep_sim_refl.
+    - unfold Cache.load_json. rewrite Hb. cbn [fst snd].
+      split; [|destruct (scan_rep m); reflexivity]. destruct (scan_rep m); cbn; auto. apply rep_sim_refl.
+    - rewrite (load_json_of_scan _ _ Hs Hts), Hs. cbn. split; [apply rep_sim_stored_fields|reflexivity].
   Qed.
 
   Lemma load_rep_scan c m : load_rep mode_scan c m = (scan_rep m, None).
@@ -321,8 +346,14 @@ Section Sim.
     lstate_rel c c0 (load_asset mode_read apath name o a c) (load_asset mode_scan apath name o a' c0).
   Proof.
     intros Ha Hg. destruct o as [| |sets]; cbn [Cache.load_asset]; try (cbn; auto; fail).
-    apply load_sets_sim; [|exact Hg].
-    destruct Ha as (Hm & Hr & Hs & Hl & Hf). repeat split; cbn; auto. now rewrite Hm.
+    set (a1 := {| a_mpds := a_mpds a ++ [name]; a_reps := a_reps a; a_segdur := a_segdur a; a_loop := a_loop a; a_ref := a_ref a |}).
+    set (a1' := {| a_mpds := a_mpds a' ++ [name]; a_reps := a_reps a'; a_segdur := a_segdur a'; a_loop := a_loop a'; a_ref := a_ref a' |}).
+    assert (Ha1 : asset_sim a1 a1').
+    { destruct Ha as (Hm & Hr & Hs & Hl & Hf). repeat split; cbn; auto. now rewrite Hm. }
+    pose proof (load_sets_sim apath c c0 sets a1 a1' Ha1 Hg) as Hr.
+    destruct (load_sets mode_read apath sets a1 c) as [[[x1 c1] e1]| |],
+             (load_sets mode_scan apath sets a1' c0) as [[[x2 c2] e2]| |]; cbn [lstate_rel bind] in *; try contradiction; auto.
+    destruct Hr as (Hx & -> & -> & ->). destruct e2; (split; [assumption|auto]).
   Qed.
 
   (** ** discoverAssets *)
@@ -481,7 +512,13 @@ Section TwoRuns.
     - inversion Ho as [|? ? Ho1 Ho2]; subst.
       set (a := match lookup apath assets with Some a => a | None => empty_asset end).
       assert (Hr : two_rel (load_asset md1 apath name o a ci) (load_asset md2 apath name o a di)).
-      { destruct o as [| |sets]; cbn [Cache.load_asset]; try (cbn; auto; fail). apply load_sets_two; assumption. }
+      { destruct o as [| |sets]; cbn [Cache.load_asset]; try (cbn; auto; fail).
+        match goal with |- two_rel (do r <- load_sets md1 apath sets ?A1 ci; _) _ =>
+          pose proof (load_sets_two apath sets A1 ci di Ho1 Hc) as Hs;
+          destruct (load_sets md1 apath sets A1 ci) as [[[x1 c1] e1]| |],
+                   (load_sets md2 apath sets A1 di) as [[[x2 c2] e2]| |]; cbn [two_rel bind] in *; try contradiction; auto
+        end.
+        destruct Hs as (-> & -> & Hc12). repeat split; auto. }
       destruct (load_asset md1 apath name o a ci) as [[[a1 c1] e1]| |],
                (load_asset md2 apath name o a di) as [[[a2 c2] e2]| |]; cbn [two_rel bind two_all_rel] in *; try contradiction; auto.
       destruct Hr as (-> & _ & Hc12). apply IH; assumption.
@@ -539,7 +576,7 @@ Section WriteMode.
       representation id in one way ([D]) and the directory was good before (e.g. empty). *)
   Variable D : string -> string -> mpd_rep.
   Definition consistent (l : mpd_list) : Prop := Forall (mpd_occ (fun apath m => m = D apath (m_id m))) l.
-  Definition good_D (c : cache B) : Prop := forall a id, good_entry B enc (D a id) (c a id).
+  Definition good_D (c : cache B) : Prop := forall a id, good_entry B enc dec (D a id) (c a id).
 
   Theorem write_makes_good l c assets c1 :
     consistent l -> good_D c ->
@@ -551,7 +588,7 @@ Section WriteMode.
     { intros ci di apath m Hm Hc a id. unfold wstep. destruct (scan_rep m) as [r| |] eqn:Es; try apply Hc.
       cbn [do_write mode_write]. unfold cache_set. destruct (String.eqb apath a && String.eqb (m_id m) id) eqn:Ek; [|apply Hc].
       apply andb_prop in Ek. destruct Ek as [Ea Ei]. apply String.eqb_eq in Ea, Ei. subst a id.
-      right. exists r. split; [rewrite <- Hm; exact Es|reflexivity]. }
+      right; right; right. exists r. split; [rewrite <- Hm; exact Es|reflexivity]. }
     pose proof (discover_two B enc dec mode_write mode_write eq_refl eq_refl _ CR Hstep l c c Hcons Hg) as Hr.
     rewrite H1 in Hr. cbn in Hr. apply Hr.
   Qed.
@@ -560,7 +597,7 @@ Section WriteMode.
   Lemma good_D_cache_good l c :
     consistent l -> good_D c ->
     Forall (mpd_occ (fun _ m => init_ts_ok m)) l ->
-    cache_good B enc c l.
+    cache_good B enc dec c l.
   Proof.
     intros Hcons Hg Hts. unfold cache_good, consistent in *. rewrite Forall_forall in *. intros [[apath name] o] Hin.
     specialize (Hcons _ Hin). specialize (Hts _ Hin). destruct o as [| |sets]; cbn in *; auto.
